@@ -15,18 +15,22 @@ import struct
 from common import Model, hx
 
 from sims import adv_tags as A
-from sims.adv_run import run_real, script_line, cmd_hash
+from sims.adv_run import run_real, run_dump, script_line, cmd_hash
 
 LEAN_TARGETS = ["NfcVerif.Props.C08", "drv_c08", "NfcVerif.Props.TablesTag", "NfcVerif.Props.TablesIso"]
 
-THEOREMS = [
-    "NfcVerif.C08.t1_read_safe", "NfcVerif.C08.t2_read_safe", "NfcVerif.C08.t3_read_safe", "NfcVerif.C08.t4_read_safe",
-    "NfcVerif.C08.activate_safe", "NfcVerif.C08.isodep_wtx_endless_counterexample",
-]
+THEOREMS = ["NfcVerif.C08." + t for t in (
+    "session_safe", "t1_read_safe", "t2_read_safe", "t3_read_safe", "t3_polling_shape", "t4_read_safe", "t4_read_safe_frames",
+    "isodep_exchange_safe", "isodep_asfound_is_shared_model", "is_present_safe_t1", "is_present_safe_t2", "is_present_safe_t3",
+    "is_present_safe_t3rr", "is_present_safe_t4", "ops_safe", "activate_safe", "isodep_wtx_endless_counterexample",
+    "isodep_ack_endless_counterexample")]
 
 # interactions (clf.exchange / clf.sense) one _read_ndef_data may need; stated by the theorems
 BOUND = {"t1": 70, "t2": 33000, "t3": 3 * 65537, "t4": None}
 ACT_BOUND = 6
+# interactions tag.dump() may need: Type 1 RALL + 240 blocks read and written twice, 3 attempts each; Type 2 pages up to
+# 0x40000 with a sector select per 256 pages (the simulators end the memory much earlier); Type 3 65536 blocks
+DUMP_BUDGET = {"t1": 3 * (1 + 3 * 240) + 10, "t2": 3 * (0x40000 + 3 * 0x400) + 10, "t3": 3 * 65537 + 200}
 
 
 # --------------------------------------------------------------------------- generators
@@ -137,11 +141,14 @@ def gen_t3(rng, big=False):
     ic = rng.choice([0xF0, 0xF1, 0xF2, 0x01, 0x20, 0x06, 0x1F, 0xE0, 0x77, 0xFF, rng.randrange(256)])
     with_sys = rng.random() < 0.6
     sysc = rng.choice([b"\x12\xFC"] * 5 + [b"\xFF\xFF", b"\x88\xB4", b"\x00\x03"])
+    poll = rng.choice(["ok"] * 6 + ["mute", "short", "other-idm", "extra", "extra", "noreq", ("len", rng.choice([0, 1, 8, 15, 16, 17, 18, 19, 20, 32]))])
+    rr = rng.choice(["mute", "mute", b"\x00", b"\x01", b"\x03", b"\x04", b"\xFF", b"", b"\x00\x00"])
     rsp = A.T3Adv(attr, rbytes(rng, ln), ic=ic, sys=sysc, with_sys=with_sys,
                   lim=rng.choice([15, 15, 4, 1, 12]), nblocks=rng.choice([None, None, 2, 10 ** 9]),
-                  beyond=rng.choice(["err", "mute", "data"]), poll=rng.choice(["ok"] * 6 + ["mute", "short", "other-idm"]))
+                  beyond=rng.choice(["err", "mute", "data"]), poll=poll, rr=rr)
     d = {"kind": "t3", "attr": hx(attr), "data_len": ln, "data": hx(rsp.data) if ln <= 64 else "random", "ic": ic, "sys": hx(sysc),
-         "with_sys": with_sys, "lim": rsp.lim, "nblocks": rsp.nblocks, "beyond": rsp.beyond, "poll": rsp.poll}
+         "with_sys": with_sys, "lim": rsp.lim, "nblocks": rsp.nblocks, "beyond": rsp.beyond, "poll": rsp.poll,
+         "rr": rr if rr == "mute" else hx(rr)}
     return rsp, d
 
 
@@ -185,11 +192,40 @@ def gen_t4(rng, big=False):
                   read_mode=rng.choice(["ok"] * 6 + ["empty", "over", "one", "sw", "nosw"]), sel_app=rng.choice(["v2"] * 5 + ["v1", "none"]),
                   chunk=rng.choice([253, 253, 40, 13, 1]), frame_mode=fm, frame_from=rng.randrange(0, 9),
                   sel_res=rng.choice([0x20, 0x20, 0x60, 0x28]), sdd=rbytes(rng, rng.choice([4, 7, 10])),
-                  read_from=rng.choice([2, 2, nls, 0, 10]), cc_over=rng.choice([0] * 9 + [1, 6]))
+                  read_from=rng.choice([2, 2, nls, 0, 10]), cc_over=rng.choice([0] * 9 + [1, 6]),
+                  wtxm=rng.choice([59, 59, 30, 1, 0, 60, 63, 0x41, 0xFB]), flood_inf=rng.choice([250, 250, 40, 255]),
+                  flood_len=rng.choice([None, None, None, 1, 2, 3, 5, 6, 7, 40]))
     d = {"kind": "t4", "cc": hx(cc), "file_len": len(f), "nlen_field": nlen_field, "type": kind, "ats": hx(rsp.ats), "sensb": hx(sensb),
          "attrib": hx(rsp.attrib), "read_mode": rsp.read_mode, "sel_app": rsp.sel_app, "chunk": rsp.chunk, "frame_mode": fm,
-         "frame_from": rsp.frame_from, "sel_res": rsp.sel_res, "read_from": rsp.read_from, "cc_over": rsp.cc_over}
+         "frame_from": rsp.frame_from, "sel_res": rsp.sel_res, "read_from": rsp.read_from, "cc_over": rsp.cc_over,
+         "wtxm": rsp.wtxm, "flood_inf": rsp.flood_inf, "flood_len": rsp.flood_len}
     return rsp, d
+
+
+def t4_budget(rsp, d, base=3000, cap=40000):
+    """interactions a Type 4 case may need on a tree with the S(WTX) limit: a flood of requests with multiplier m
+    is granted max_wtxm_sum / m times (the limit of the tag object the real activation creates).  A flood that
+    would need more than `cap` interactions is made finite (the card behaves again after flood_len frames)."""
+    if getattr(rsp, "frame_mode", "ok") != "wtx" or not 1 <= rsp.wtxm & 0x3F <= 59 or rsp.flood_len is not None:
+        return base
+    try:
+        import copy
+        tag = nfc_activate(copy.copy(rsp))
+        lim = getattr(getattr(tag, "_dep", None), "max_wtxm_sum", None)
+    except Exception:
+        lim = None
+    if lim is None:
+        return base
+    need = lim // (rsp.wtxm & 0x3F) + 2
+    if base + 2 * need > cap:
+        rsp.flood_len = d["flood_len"] = (cap - base) // 4
+        return cap
+    return base + 2 * need
+
+
+def nfc_activate(rsp):
+    import nfc.tag
+    return nfc.tag.activate(A.AdvClf(rsp, 50), rsp.target())
 
 
 def gen_script(rng):
@@ -289,31 +325,86 @@ def stored_inside(tag, base):
         return False
 
 
+def probe_fixes():
+    """which termination repairs of fixes/C08 (0010-0012) and fixes/C12 (sticky errno) the tree under test contains,
+    found by behaviour: -> flags string for the model driver ('s' sticky errno, 'w' S(WTX) limited, 'a' retransmission
+    after R(ACK) counted, 'c' response chaining limited)"""
+    import nfc.tag.tt4
+
+    class Clf(object):
+        def __init__(self, answer):
+            self.answer, self.n = answer, 0
+
+        def exchange(self, data, timeout):
+            self.n += 1
+            if self.n > 400:
+                raise A.BudgetExceeded()
+            return bytearray(self.answer(bytes(data)))
+
+    def ends(answer):
+        dep = nfc.tag.tt4.IsoDepInitiator(Clf(answer), 64, 4096 / 13.56E6 * 2 ** 14)      # FWI 14: limit 59, no retries
+        try:
+            dep.exchange(b"\x00\xA4\x04\x00", None)
+        except A.BudgetExceeded:
+            return False
+        except Exception:
+            pass
+        return True
+    flags = ""
+    try:
+        if hasattr(nfc.tag.tt4.IsoDepInitiator(None, 256, 0.01), "errno"):
+            flags += "s"
+        if ends(lambda c: b"\xF2\x01"):
+            flags += "w"
+        if ends(lambda c: b"\xA3" if c[0] & 0xE6 == 0x02 else b"\xA3"):
+            flags += "a"
+        st = {"bn": 0}
+
+        def chain(c):
+            st["bn"] ^= 1
+            return bytes([0x12 | (st["bn"] ^ 1)])
+        if ends(chain):
+            flags += "c"
+    except Exception:          # a tree on which the probe itself fails is treated as unrepaired; the oracle will tell
+        pass
+    return flags
+
+
+OPS = ["nhp"] * 6 + ["pnhp", "np", "pn", "nphph", "hnp", "nnhhp", "p", "ppn"]
+PRESENT_BOUND = {"t1": 3, "t2": 3, "t3": 6, "t4": 1}
+
+
 class Runner(object):
     def __init__(self, ck):
         self.ck = ck
         self.pending = []     # (line, real Result, descr)
         self.model = Model("drv_c08")
-        import nfc.tag.tt4
-        self.sticky = hasattr(nfc.tag.tt4.IsoDepInitiator(None, 256, 0.01), "errno")
+        self.flags = probe_fixes()
+        self.sticky = "s" in self.flags
 
-    def case(self, rsp, descr, budget, stop_after=None, garble=None, max_send=256, max_recv=256):
+    def case(self, rsp, descr, budget, stop_after=None, garble=None, max_send=256, max_recv=256, ops="nhp"):
         ck = self.ck
         kind = descr["kind"]
-        r = run_real(rsp, budget, max_send, max_recv, stop_after, garble)
+        r = run_real(rsp, budget, max_send, max_recv, stop_after, garble, ops)
         d = dict(descr, stop_after=stop_after, garble=None if not garble else {k: (None if v is None else hx(v)) for k, v in garble.items()},
-                 max_send=max_send, max_recv=max_recv, budget=budget, outcome=r.canon, interactions=r.n)
+                 max_send=max_send, max_recv=max_recv, budget=budget, ops=ops, outcome=r.canon, interactions=r.n)
         base = kind.replace("script-", "")[:2]
         nontrivial = r.n > 1
-        ck.case((kind, json.dumps(d, sort_keys=True, default=str)), nontrivial, "%s:%s" % (kind, r.canon.split(" ")[0] + (" ndef" if "first=len" in r.canon else "")),
+        ck.case((kind, json.dumps(d, sort_keys=True, default=str)), nontrivial, "%s:%s" % (kind, r.canon.split(" ")[0] + (" ndef" if "n=len" in r.canon else "")),
                 sample={"kind": kind, "outcome": r.canon[:120], "interactions": r.n})
         # ---- L3 oracle on the real code
         if r.loop:
-            ck.fail(loop_key(base, r.log), "%s: more than %d interactions, the reader does not stop (last commands %s)"
+            key = loop_key(base, r.log)
+            fixed = {"t4-isodep-wtx-endless": "w", "t4-isodep-ack-retransmit-endless": "a", "t4-isodep-chaining-endless": "c"}.get(key)
+            if fixed and fixed in self.flags:
+                key += "-despite-repair"        # the tree has the repair (probe) and the reader is still kept busy
+            ck.fail(key, "%s: more than %d interactions, the reader does not stop (last commands %s)"
                     % (kind, budget, [hx(c) for c, _ in r.log[-3:]]), d)
         elif r.exc is not None:
             ck.fail("%s-%s-raises-%s" % (base, r.where, r.exc.split("(")[0]), "%s: %s during %s after %d interactions" % (kind, r.exc, r.where, r.n), d)
         else:
+            for what in r.bad:
+                ck.fail("%s-unexpected-return-value" % base, "%s: %s" % (kind, what), d)
             if r.ndef is not None or r.length is not None:
                 if r.length is not None and r.length > r.capacity:
                     if stored_inside(r.tag, base):
@@ -339,14 +430,47 @@ class Runner(object):
                     elif r.octets != bytes(rsp.at(a) for a in ref["addrs"]):
                         ck.fail("%s-octets-differ-from-image" % base, "%s: octets are not the image content of the TLV value" % kind, d)
             b = BOUND.get(base)
-            if b is not None and r.n > ACT_BOUND + 2 * b:
+            reads = sum(1 for o in ops if o in "nh")
+            if b is not None and r.n > ACT_BOUND + reads * b + ops.count("p") * PRESENT_BOUND[base]:
                 ck.fail("%s-command-bound-exceeded" % base, "%s: %d interactions" % (kind, r.n), d)
+            # every presence check on its own: at most PRESENT_BOUND interactions
+            k = 1
+            for o in ops:
+                if k < len(r.n_at) and o == "p" and r.n_at[k] - r.n_at[k - 1] > PRESENT_BOUND[base]:
+                    ck.fail("%s-is-present-command-bound-exceeded" % base, "%s: is_present made %d interactions"
+                            % (kind, r.n_at[k] - r.n_at[k - 1]), d)
+                k += 1
         # ---- L2 request for the model
-        tg = rsp.target()
-        line = script_line("run", r.log, target_fields(tg) + [max_send, max_recv, budget, int(self.sticky)])
+        try:
+            tg = rsp.target()
+            line = script_line("run", r.log, target_fields(tg) + [max_send, max_recv, budget, self.flags or "-", ops])
+        except Exception as e:      # a target the harness cannot describe to the model
+            ck.fail("tie:case-not-expressible", "%s: %r" % (kind, e), d)
+            return r
         want = "loop" if r.loop else "%s n=%d h=%d" % (r.canon, r.n, cmd_hash([c for c, _ in r.log]))
         self.pending.append((line, want, d))
         return r
+
+    def dump(self, rsp, descr, budget, stop_after=None):
+        """oracle only: activate + tag.dump() ends within the budget and raises nothing but TagCommandError"""
+        ck = self.ck
+        kind = descr["kind"]
+        base = kind.replace("script-", "")[:2]
+        out, n, log, detail = run_dump(rsp, budget, stop_after=stop_after)
+        d = dict(descr, op="dump", stop_after=stop_after, budget=budget, outcome=out, interactions=n)
+        ck.case((kind, "dump", json.dumps(d, sort_keys=True, default=str)), n > 1, "%s:dump %s" % (kind, out.split("(")[0]))
+        if out == "loop":
+            key = loop_key(base, log) if base == "t4" else base + "-dump-command-bound-exceeded"
+            fixed = {"t4-isodep-wtx-endless": "w", "t4-isodep-ack-retransmit-endless": "a", "t4-isodep-chaining-endless": "c"}.get(key)
+            if fixed and fixed in self.flags:
+                key += "-despite-repair"
+            ck.fail(key, "%s: dump() made more than %d interactions (last commands %s)" % (kind, budget, [hx(c) for c, _ in log[-3:]]), d)
+        elif out.startswith("exc ") and not out.startswith("exc TagCommandError"):
+            ck.fail("%s-%s-raises-%s" % (base, "dump" if detail == "dump" else "activate", out[4:].split("(")[0]),
+                    "%s: %s during %s after %d interactions" % (kind, out[4:], detail, n), d)
+        elif out.startswith("bad "):
+            ck.fail("%s-dump-unexpected-return-value" % base, "%s: dump() returned %s" % (kind, out[4:]), d)
+        return out
 
     def flush(self, tie):
         lines = [p[0] for p in self.pending]
@@ -372,39 +496,65 @@ def run(ck):
     for kind, gen, budget in gens:
         for i in range(n_img):
             rsp, d = gen(rng)
-            bud = budget
+            bud = budget if kind != "t4" else t4_budget(rsp, d, cap=400000 if T else 40000)
+            ops = rng.choice(OPS)
             r = R.case(rsp, d, bud, max_send=rng.choice([256, 256, 64, 16]) if kind == "t4" else 256,
-                       max_recv=rng.choice([256, 256, 255]) if kind == "t4" else 256)
+                       max_recv=rng.choice([256, 256, 255]) if kind == "t4" else 256, ops=ops)
             # the tag stops answering after the n-th interaction, for every n (sampled in the quick tier)
             if not r.loop and r.n <= 60:
                 ns = range(r.n) if (T or i % 6 == 0) else rng.sample(range(r.n), min(r.n, 2))
                 for n in ns:
                     rsp2, _ = regen(kind, d, rsp)
-                    R.case(rsp2, d, bud, stop_after=n)
+                    R.case(rsp2, d, bud, stop_after=n, ops=ops)
             # one answer replaced by junk
             if not r.loop and r.n and i % 2 == 0:
                 k = rng.randrange(r.n)
-                junk = rng.choice([None, b"", rbytes(rng, 1), rbytes(rng, rng.choice([2, 4, 15, 16, 17, 18, 122, 129])), b"\x00", b"\x0A", b"\x90\x00"])
+                junk = rng.choice([None, b"", rbytes(rng, 1), rbytes(rng, rng.choice([2, 4, 15, 16, 17, 18, 20, 122, 129])), b"\x00", b"\x0A", b"\x90\x00"])
                 rsp2, _ = regen(kind, d, rsp)
-                R.case(rsp2, d, bud, garble={k: junk})
+                R.case(rsp2, d, bud, garble={k: junk}, ops=ops)
+            # tag.dump() on the same tag (oracle only)
+            if i % 3 == 0:
+                rsp2, _ = regen(kind, d, rsp)
+                R.dump(rsp2, d, DUMP_BUDGET[kind] if kind != "t4" else bud)
         R.flush("adversarial %s tag: outcome, interaction count, commands" % kind)
     for i in range(2500 if T else 500):
         rsp, d = gen_script(rng)
-        R.case(rsp, d, 3000)
+        R.case(rsp, d, 3000, ops=rng.choice(OPS))
+        if i % 4 == 0:
+            rsp, d = gen_script(rng)
+            R.dump(rsp, d, 3000)
     R.flush("command-blind random answers: outcome, interaction count, commands")
     corpus(R)
     R.flush("witness corpus (section 9 findings F12-F15 and the new ones)")
     sweep_t2_reserved(R, rng, T)
     sweep_t1_tail(R, rng, T)
+    sweep_t1_reserved(R, rng, T)
     R.flush("structured sweeps: reserved octets inside the area x boundary lengths, TLV headers at the end of the area")
     sweep_activation(R, rng, T)
     R.flush("activation sweeps: all IC codes, GET_VERSION / authenticate answers, HR0/HR1, SENSB_RES, ATS T0, SEL_RES")
+    sweep_activation2(R, rng, T)
+    R.flush("activation variants x first answers x order of ndef / is_present: SENSF_RES x polling answers x Request Response, "
+            "RID x READ answers, SENS_RES x UID size, ATS shapes, ATTRIB answers")
     if T:
         for kind, gen, budget in (("t3", gen_t3, 2 * BOUND["t3"] + 10), ("t4", gen_t4, 12000)):
             for i in range(40):
                 rsp, d = gen(rng, big=True)
                 R.case(rsp, d, budget)
         R.flush("long messages")
+        # the repaired ISO-DEP loops at their full length: 59 * 2^14 S(WTX) requests with WTXM 1 at FWI 0 are granted, the
+        # next one ends the exchange; 65538 chained blocks of one octet are accepted, the next one is a protocol error
+        cc = A.t4_cc(0x20, 59, 52, 4, 100)
+        f = struct.pack(">H", 5) + b"hello" + bytes(93)
+        if "w" in R.flags:
+            R.case(A.T4Adv(cc, f, ats=b"\x05\x78\x80\x00\x02", frame_mode="wtx", frame_from=2, wtxm=1),
+                   {"kind": "t4", "witness": "t4:FWI 0, S(WTX) flood with WTXM 1 up to the limit 966656"}, 966656 + 100, ops="n")
+            R.case(A.T4Adv(cc, f, ats=b"\x05\x78\x80\x00\x02", frame_mode="wtx", frame_from=2, wtxm=1, flood_len=966656),
+                   {"kind": "t4", "witness": "t4:FWI 0, exactly 966656 S(WTX) requests with WTXM 1, then the response"}, 966656 + 100, ops="n")
+        if "c" in R.flags:
+            for n in (65537, 65538, 65539):
+                R.case(A.T4Adv(cc, f, frame_mode="chain", frame_from=2, flood_inf=1, flood_len=n),
+                       {"kind": "t4", "witness": "t4:%d chained response blocks of one octet" % n}, 70000, ops="n")
+        R.flush("repaired ISO-DEP loops at full length")
 
     ck.rule = ("cases = (responder description, 'stops answering after n' point, garbled answer) per tag type: Type 1/2 memory images "
                "with hostile TLV streams (control TLVs of any length pointing anywhere, NDEF TLV fitting / ending at / beyond the data "
@@ -452,6 +602,44 @@ def sweep_t2_reserved(R, rng, full):
                         rsp = A.T2Adv(bytes(mem), beyond="wrap", sectors="yes")
                         R.case(rsp, {"kind": "t2", "sweep": "reserved-inside", "cc2": cc2, "reserved": [start, rsz], "lock": lock,
                                      "hdr": hdr, "len": ln, "room": room, "mem": hx(mem)}, 3000)
+
+
+def ctl_tlv_any(start, size, lock=False):
+    """lock / memory control TLV for a byte range starting anywhere below 4096: page address nibble, byte offset
+    nibble and a page size 2^e that express `start`"""
+    for e in (4, 5, 6, 7, 8):
+        p, o = divmod(start, 1 << e)
+        if p <= 15 and o <= 15:
+            return bytes([1 if lock else 2, 3, p << 4 | o, (size * 8 if lock else size) & 0xFF, e])
+    raise ValueError(start)
+
+
+def sweep_t1_reserved(R, rng, full):
+    """Type 1 dynamic memory: a reserved range that reaches (almost) up to the end of the data area, message
+    lengths around the number of usable octets - the value must not be continued behind the area"""
+    for tms in (0x1F, 0x3F):
+        end = (tms + 1) * 8
+        for k in ((1, 8, 16) if full else (rng.choice([1, 8]), 16)):
+            for gap in ((0, 1, 4) if full else (0, rng.choice([1, 4]))):
+                for lock in ((False, True) if full else (rng.random() < 0.5,)):
+                    size = 1 if lock else k
+                    start = end - gap - size
+                    try:
+                        ctl = ctl_tlv_any(start, size, lock)
+                    except ValueError:
+                        continue
+                    for hdr in ((2, 4) if end == 256 else (4,)):
+                        skip = set(range(104, 128)) | set(range(start, start + size))
+                        usable = len([a for a in range(17 + hdr, end) if a not in skip])
+                        for ln in (usable - 1, usable, usable + 1, usable + size, usable + size + 1):
+                            if ln < 0 or (hdr == 2 and ln > 254):
+                                continue
+                            mem = bytearray(rbytes(rng, 8)) + bytes([0xE1, 0x10, tms, 0x00]) + ctl
+                            mem += (bytes([3, ln]) if hdr == 2 else bytes([3, 255]) + struct.pack(">H", ln))
+                            mem += rbytes(rng, end + 64 - len(mem))
+                            R.case(A.T1Adv(b"\x12\x4C", bytes(mem), wrap=True),
+                                   {"kind": "t1", "sweep": "reserved-at-end", "tms": tms, "reserved": [start, size], "lock": lock,
+                                    "hdr": hdr, "len": ln, "usable": usable, "head": hx(mem[:24])}, 300, ops="n")
 
 
 def sweep_t1_tail(R, rng, full):
@@ -537,6 +725,91 @@ def sweep_activation(R, rng, full):
             R.case(rsp, {"kind": "script-t4a" if sel >> 5 & 1 else "t2", "sweep": "sel-res", "sel_res": sel}, 200)
 
 
+def sweep_activation2(R, rng, full):
+    """standard-conformant variants of the activation responses x what the tag answers to the first commands x the
+    order of tag.ndef / tag.is_present; tag.dump() on a part of them"""
+    pick = (lambda seq, n: list(seq)) if full else (lambda seq, n: rng.sample(list(seq), min(n, len(list(seq)))))
+    # ---- Type 3: SENSF_RES with/without request data (system code 12FCh or another one) x polling answers with
+    # 0..20 data octets, with unrequested / without requested request data x IC code families x Request Response
+    attr = A.t3_attr(0x10, 4, 1, 2, 0, 1, 20)
+    polls = ["ok", "extra", "noreq", "mute", "short", "other-idm"] + [("len", n) for n in range(0, 22)]
+    fams = [(0xF0, "mute"), (0xF1, "mute"), (0x01, b"\x00"), (0x01, "mute"), (0x01, b"\x04"), (0x01, b""), (0x06, b"\x03"),
+            (0x06, b"\x00\x00"), (0x77, "mute"), (0xE0, "mute")]
+    combos = [(ws, sc, pl, fam, ops) for ws in (False, True) for sc in (b"\x12\xFC", b"\x88\xB4") for pl in polls for fam in fams
+              for ops in ("n", "p", "pn", "nhp")]
+    for i, (ws, sc, pl, (ic, rr), ops) in enumerate(pick(combos, 500)):
+        rsp = A.T3Adv(attr, bytes(range(20)), ic=ic, sys=sc, with_sys=ws, poll=pl, rr=rr)
+        d = {"kind": "t3", "sweep": "sensf x polling", "with_sys": ws, "sys": hx(sc), "poll": pl, "ic": ic,
+             "rr": rr if rr == "mute" else hx(rr)}
+        R.case(rsp, d, 100, ops=ops)
+        if i % 5 == 0:
+            R.dump(A.T3Adv(attr, bytes(range(20)), ic=ic, sys=sc, with_sys=ws, poll=pl, rr=rr), d, DUMP_BUDGET["t3"])
+    # ---- Type 1: RID (HR0, HR1, UID) x what READ answers (presence check): 0..3 octets, mute
+    t1mem = bytearray(rbytes(rng, 8)) + b"\xE1\x10\x0E\x00\x03\x01a\xfe" + bytes(104)
+    for hr in (b"\x11\x48", b"\x12\x4C", b"\x10\x00", b"\x1F\xFF"):
+        for uid in (bytes(t1mem[0:4]), b"\x00\x00\x00\x00", rbytes(rng, 4)):
+            for ops in ("np", "pn", "p"):
+                for k, junk in ((None, None), (0, b""), (0, b"\x00"), (0, bytes([0, t1mem[0]])), (0, b"\x00\x01\x02"), (0, None)):
+                    # the presence check is the LAST interaction of 'np' / the first of 'pn', 'p': garble that one
+                    rsp = A.T1Adv(hr, bytes(t1mem), uid=uid)
+                    d = {"kind": "t1", "sweep": "rid x read answer", "hr": hx(hr), "uid": hx(uid), "read_answer": None if junk is None else hx(junk)}
+                    if k is None:
+                        R.case(rsp, d, 100, ops=ops)
+                    else:
+                        base = run_real(A.T1Adv(hr, bytes(t1mem), uid=uid), 100, ops=ops)
+                        pos = base.n - 1 if ops == "np" else 0
+                        R.case(rsp, d, 100, ops=ops, garble={pos: junk})
+        R.dump(A.T1Adv(hr, bytes(t1mem)), {"kind": "t1", "sweep": "rid", "hr": hx(hr)}, DUMP_BUDGET["t1"])
+        for n in (0, 1, 2, 121, 122):
+            R.dump(A.T1Adv(hr, bytes(t1mem), rall=n), {"kind": "t1", "sweep": "rid, short RALL", "hr": hx(hr), "rall": n}, DUMP_BUDGET["t1"])
+    # ---- Type 2 / Type 4A: SENS_RES (every platform octet), UID sizes 4 / 7 / 10, SEL_RES
+    img = bytearray(16) + b"\x03\x01a\xfe" + bytes(44)
+    img[12:16] = b"\xE1\x10\x06\x00"
+    cc = A.t4_cc(0x20, 59, 52, 4, 20)
+    f = struct.pack(">H", 3) + b"abc" + bytes(15)
+    for s1 in pick(range(256), 48):
+        for s0 in (0x00, 0x44, 0x84, 0x04):                # UID size bits b8 b7 of the first octet, bit frame anticollision
+            uid = {0x00: 4, 0x04: 4, 0x44: 7, 0x84: 10}[s0]
+            if s1 & 0x0F == 0x0C:                           # Type 1 Tag platform: RID response
+                rsp = A.T1Adv(b"\x11\x48", bytes(t1mem))
+                rsp.target = (lambda s0=s0, s1=s1, rsp=rsp: __import__("nfc").clf.RemoteTarget(
+                    "106A", sens_res=bytearray([s0, s1]), rid_res=bytearray(rsp.hr + rsp.uid)))
+                R.case(rsp, {"kind": "t1", "sweep": "sens-res", "sens_res": hx(bytes([s0, s1]))}, 100, ops=rng.choice(["np", "pn"]))
+                continue
+            rsp = A.T2Adv(bytes(img), sdd=bytes([rng.choice([0x04, 0x01])]) + rbytes(rng, uid - 1), version=rng.choice([None, b"\x00"]))
+            rsp.sens = bytes([s0, s1])
+            R.case(rsp, {"kind": "t2", "sweep": "sens-res x uid size", "sens_res": hx(rsp.sens), "sdd": hx(rsp.sdd)}, 200, ops=rng.choice(["np", "pn"]))
+            rsp = A.T4Adv(cc, f, sdd=rbytes(rng, uid), sel_res=rng.choice([0x20, 0x24, 0x60]))
+            rsp.sens = bytes([s0, s1])
+            R.case(rsp, {"kind": "t4", "sweep": "sens-res x uid size", "sens_res": hx(rsp.sens), "sdd": hx(rsp.sdd)}, 200, ops=rng.choice(["np", "pn"]))
+    for i, n in enumerate((4, 7, 10)):
+        R.dump(A.T2Adv(bytes(img) + bytes(960), beyond="nak", sdd=rbytes(rng, n)), {"kind": "t2", "sweep": "uid size", "n": n}, DUMP_BUDGET["t2"])
+        R.dump(A.T4Adv(cc, f, sdd=rbytes(rng, n)), {"kind": "t4", "sweep": "uid size", "n": n}, 3000)
+    # ---- Type 4A: ATS shapes: TL 1..20, T0 with every subset of TA/TB/TC and every FSCI, every FWI/SFGI in TB,
+    # 0..15 historical octets; TL consistent and not
+    shapes = [(y, fsci, tb, nh) for y in range(8) for fsci in (0, 2, 5, 8, 9, 15) for tb in (0x00, 0x40, 0x70, 0x80, 0xB0, 0xC0, 0xE0, 0xF0, 0xE1, 0x7F)
+              for nh in (0, 1, 7, 15)]
+    for i, (y, fsci, tb, nh) in enumerate(pick(shapes, 260)):
+        body = bytes([y << 4 | fsci]) + (b"\x80" if y & 1 else b"") + (bytes([tb]) if y & 2 else b"") + (b"\x02" if y & 4 else b"") + rbytes(rng, nh)
+        ats = bytes([1 + len(body)]) + body
+        if i % 9 == 0:
+            ats = bytes([rng.choice([0, 1, len(ats) - 1, len(ats) + 1, 255])]) + body        # TL that disagrees with the length
+        rsp = A.T4Adv(cc, f, ats=ats)
+        d = {"kind": "t4", "sweep": "ats shape", "ats": hx(ats)}
+        R.case(rsp, d, 400, ops=rng.choice(["nhp", "pn", "np", "p"]), max_send=rng.choice([256, 64, 16]), max_recv=rng.choice([256, 255]))
+        if i % 6 == 0:
+            R.dump(A.T4Adv(cc, f, ats=ats), d, 3000)
+    # ---- Type 4B: SENSB_RES 12 / 13 octets, every FSCI / FWI (exists above), ATTRIB answers of 0..4 octets, none
+    for attrib in (b"", b"\x00", b"\x10", b"\x00\x01", rbytes(rng, 3), rbytes(rng, 4), None):
+        for ext in (b"", b"\x00"):
+            for fwi in (0, 4, 9, 14, 15):
+                sensb = bytes([0x50, 1, 2, 3, 4, 0, 0, 0, 0, 0x00, 0x81, fwi << 4]) + ext
+                rsp = A.T4Adv(cc, f, kind="B", sensb=sensb, attrib=attrib)
+                d = {"kind": "t4", "sweep": "attrib answer", "attrib": None if attrib is None else hx(attrib), "sensb": hx(sensb)}
+                R.case(rsp, d, 400, ops=rng.choice(["nhp", "pn", "np"]), max_recv=rng.choice([256, 255]))
+        R.dump(A.T4Adv(cc, f, kind="B", attrib=attrib), {"kind": "t4", "sweep": "attrib answer", "attrib": None if attrib is None else hx(attrib)}, 3000)
+
+
 def regen(kind, d, rsp):
     """a fresh responder with the same behaviour (responders are stateful)"""
     import copy
@@ -561,7 +834,10 @@ def corpus(R):
         return bytes(m)
 
     def c(rsp, name, budget=3000, **kw):
-        R.case(rsp, {"kind": name.split(":")[0], "witness": name}, budget, **kw)
+        d = {"kind": name.split(":")[0], "witness": name, "flood_len": getattr(rsp, "flood_len", None)}
+        if isinstance(rsp, A.T4Adv):
+            budget = max(budget, t4_budget(rsp, d, cap=40000))
+        R.case(rsp, d, budget, **kw)
 
     c(A.T2Adv(t2img(6, b"\x03\x3c" + bytes(range(46)))), "t2:F15 length 60 in a 48 byte area, tag rolls over")
     c(A.T2Adv(t2img(6, b"\x03\xff\x17\x70" + bytes(44))), "t2:length 6000, tag rolls over", budget=20000)
@@ -598,4 +874,24 @@ def corpus(R):
     c(A.T4Adv(A.t4_cc(0x20, 59, 52, 4, 0), struct.pack(">H", 0) + bytes(8)), "t4:max file size 0 (capacity -2)")
     c(A.T4Adv(A.t4_cc(0x30, 255, 52, 6, 80000), struct.pack(">I", 70000) + bytes(70100)), "t4:NLEN 70000 with the extended control TLV")
     for fm in ("wtx", "ack", "chain", "chain0"):
-        c(A.T4Adv(cc, f, frame_mode=fm, frame_from=3), "t4:frame level flood " + fm)
+        for ff in (0, 3, 5):
+            c(A.T4Adv(cc, f, frame_mode=fm, frame_from=ff, wtxm=59, flood_inf=250), "t4:frame level flood %s from frame %d" % (fm, ff))
+    # the S(WTX) limit max_wtxm_sum = 59 * 2^(14 - FWI): requests granted up to the limit exactly, one more is refused
+    for fwi, lim in ((14, 59), (13, 118), (10, 944)):
+        ats = bytes([0x05, 0x78, 0x80, fwi << 4, 0x02])
+        for m in (59, 58, 1, 0, 60, 63):
+            for extra in (-1, 0, 1):
+                n = lim // m + extra if m else 2
+                if n >= 0:
+                    c(A.T4Adv(cc, f, ats=ats, frame_mode="wtx", frame_from=2, wtxm=m, flood_len=n),
+                      "t4:FWI %d, %d S(WTX) requests with WTXM %d (limit %d)" % (fwi, n, m, lim))
+    # retransmission requests: exactly n_retry_nak = min(int(1/fwt), 5) R(ACK) are followed, one more is refused
+    for fwi, nretry in ((14, 0), (11, 1), (10, 3), (9, 5), (4, 5)):
+        ats = bytes([0x05, 0x78, 0x80, fwi << 4, 0x02])
+        for n in (nretry - 1, nretry, nretry + 1):
+            if n >= 0:
+                c(A.T4Adv(cc, f, ats=ats, frame_mode="ack", frame_from=2, flood_len=n), "t4:FWI %d, %d R(ACK) with the other block number" % (fwi, n))
+    # response chaining: chained blocks without INF, a response that ends just below / above 65538 octets
+    for inf, n in ((0, 1), (0, 2), (255, 256), (255, 257), (255, 258), (254, 258), (254, 259)):
+        c(A.T4Adv(cc, f, frame_mode="chain" if inf else "chain0", frame_from=2, flood_inf=inf or 1, flood_len=n),
+          "t4:%d chained response blocks of %d octets" % (n, inf), budget=6000)
